@@ -33,6 +33,14 @@ NUM_TEXT_UNITS = ["pieces", "piece", "g", "cloves", "tbsp", "cans"]
 ODD_TEXT_VALUES = ["2x", "semi-dry", "x2", "a-few"]
 # names with digits and punctuation (always written with braces)
 ING_EXTRA = ["7-up", "half & half", "St. Agur", "piri-piri", "no.5 flour"]
+# <number>-<non-number> text values: no numeric range (quantity.rs 204-229 needs a number on both
+# sides of the `-`), hence core; with and without a `%` unit
+DASH_TEXT_VALUES = ["1-inch piece", "2-day old", "1-qt", "3-in-1", "2-ply", "1-pound bag"]
+# path-style recipe references (core: the name is the last segment, no modifier) and names with
+# `/` and `.` that are no paths: (spelling, expected name)
+PATH_NAMES = [("./sauces/Hollandaise", "Hollandaise"), ("../base/stock", "stock"), ("./pesto", "pesto"),
+              (".\\\\sauces\\\\aioli", "aioli"), ("half/half cream", "half/half cream"),
+              ("dr. oetker mix", "dr. oetker mix")]
 META_BODY_LINES = [">> note: see above", ">> source: x y z", ">> k1: later", ">> serves: 4 people", ">>tip:stir"]
 
 INLINE_TEXT = [["180", "C"], ["5g"], ["1.5", "kg"], ["350", "F"], ["10", "min"], ["2", "cups"], ["-3", "C"]]
@@ -66,6 +74,14 @@ class CoreGen(grec.Gen):
             unit = r.choice(NUM_TEXT_UNITS)
             body = self.blank() + txt + self.blank() + "%" + self.blank() + unit + self.blank()
             return body, {"value": {"type": "fixed", "value": {"type": "text", "value": txt}}, "unit": unit}
+        if kind in ("igr", "cw") and r.random() < 0.08:
+            txt = r.choice(DASH_TEXT_VALUES)
+            j = {"type": "fixed", "value": {"type": "text", "value": txt}}
+            if kind == "cw":
+                return self.blank() + txt + self.blank(), j
+            unit = r.choice(NUM_TEXT_UNITS + ["slices"]) if r.random() < 0.5 else None
+            body = self.blank() + txt + (self.blank() + "%" + self.blank() + unit if unit else "") + self.blank()
+            return body, {"value": j, "unit": unit}
         if kind in ("igr", "cw") and r.random() < 0.05:
             txt = r.choice(ODD_TEXT_VALUES)
             j = {"type": "fixed", "value": {"type": "text", "value": txt}}
@@ -78,10 +94,13 @@ class CoreGen(grec.Gen):
 
     def ingredient(self, st):
         r = self.r
-        if r.random() < 0.08:
-            name = r.choice(ING_EXTRA)
+        if r.random() < 0.14:
+            if r.random() < 0.5:
+                spelled, name = r.choice(PATH_NAMES)
+            else:
+                spelled = name = r.choice(ING_EXTRA)
             qs, q = (self.quantity("igr") if r.random() < 0.6 else (None, None))
-            text = name + "{" + (qs if qs is not None else self.blank(0.2)) + "}"
+            text = spelled + "{" + (qs if qs is not None else self.blank(0.2)) + "}"
             note = None
             if r.random() < 0.3:
                 note = r.choice(["chilled", "the blue one"])
@@ -251,6 +270,14 @@ class FamGen(CoreGen):
 
     def timer(self, st):
         r = self.r
+        if self.family == "alias" and r.random() < 0.6:
+            # with COMPONENT_ALIAS off the `|` stays in the timer's name (step.rs 529-531)
+            name = r.choice(["soft|hard boiled", "rest|wait", "bake|roast slowly"])
+            qs, q = self.quantity("tm")
+            self.used += 1
+            self.n_timers += 1
+            st["timers"].append({"name": name, "quantity": q})
+            return ("c", "~" + name + "{" + qs + "}", "timer", len(st["timers"]) - 1)
         if self.family == "timer_plain" and r.random() < 0.6:
             name = r.choice(grec.TM_NAMES)
             single = " " not in name
